@@ -391,9 +391,29 @@ def recipes(repo, rep):
         if not qs:
             problems.append("Q differs from -1.904412361576 + 1.554241796621 a + 0.25 b - 0.003177794022 X + S")
         # day offsets 22 / 23 / 24 and the month split at 31
-        offs = {p_[1] for x in T.walk(t) if x[0] == "add" for p_ in x[1:] if p_[0] == "num" and p_[1] in (22, 23, 24)}
+        # day offsets: every leaf of the returned day is INT(Q) + 22 / 23 / 24 (or that minus 31 in April), however the
+        # postponement is written (three constants, or 22 plus a delay of 0 / 1 / 2)
+        from ..rules import lift_phi
+        from .c10 import phi_leaves
+        offs = set()
+        if qs:
+            def day_leaves(x):
+                if x[0] == "phi":
+                    yield from day_leaves(x[2])
+                    yield from day_leaves(x[3])
+                elif x[0] == "tuple" and len(x) == 3:
+                    for _, leaf in phi_leaves(lift_phi(x[2])):
+                        yield leaf
+            for leaf in day_leaves(t):
+                try:
+                    r_ = Algebra().rat(T.sub(leaf, qs[0]))
+                    if r_.n.is_const() and r_.d.is_const():
+                        v_ = r_.n.const_value() / r_.d.const_value()
+                        offs.add(v_ + 31 if v_ < 0 else v_)
+                except Exception:
+                    offs.add(None)
         if offs != {F_(22), F_(23), F_(24)}:
-            problems.append("day offsets are %s, expected 22, 23 and 24" % sorted(map(int, offs)))
+            problems.append("day offsets are %s, expected 22, 23 and 24" % sorted(str(o) for o in offs))
         thr_r = {x[3][1] for x in T.walk(t) if x[0] == "cmp" and x[3][0] == "num" and F_("0.6") < x[3][1] < F_("0.9")}
         if thr_r != {F_("0.632870370"), F_("0.897723765")}:
             problems.append("postponement thresholds are %s" % sorted(map(float, thr_r)))
